@@ -15,6 +15,7 @@ Inductive err :=
 | EZeroDiv    (* ZeroDivisionError *)
 | EType       (* TypeError *)
 | EShape      (* shape mismatch raised by update_ *)
+| EIndex      (* IndexError *)
 | EDiverge.   (* the python loop does not terminate (made explicit by fuel) *)
 
 Inductive res (A : Type) := Ok (a : A) | Raised (e : err).
